@@ -543,7 +543,12 @@ fn eval_func_expr(
     node: dom::XmlNode,
     context: &mut model::Context,
 ) -> error::Result<model::Value> {
-    let (local_part, _, uri) = context.expanded_name(func.name())?;
+    // The default namespace of the context is for element names; an unprefixed function
+    // name is a core function.
+    let (local_part, _, uri) = match func.name() {
+        nom::model::QName::Unprefixed(u) => (u.to_string(), None, None),
+        prefixed => context.expanded_name(prefixed)?,
+    };
 
     let table = func::table();
     let entry = table
@@ -1054,7 +1059,14 @@ fn equal_qname(
     context: &model::Context,
 ) -> error::Result<bool> {
     if let Some((local_part_a, _, uri_a)) = node.as_expanded_name()? {
-        let (local_part_b, _, uri_b) = context.expanded_name(qname)?;
+        // As in a document, the default namespace does not apply to attribute names (nor to
+        // the names of namespace nodes and processing instructions).
+        let (local_part_b, _, uri_b) = match qname {
+            nom::model::QName::Unprefixed(u) if !matches!(node, dom::XmlNode::Element(_)) => {
+                (u.to_string(), None, None)
+            }
+            _ => context.expanded_name(qname)?,
+        };
         Ok(local_part_a == local_part_b && uri_a == uri_b)
     } else {
         Ok(false)
